@@ -5,5 +5,6 @@ CONSTANTS
   MaxNames = 1000000
   Horizons <- MC_NoHorizons
   FormatSeq <- MC_NoFormats
+  MaxOps = 0
 POSTCONDITION AllConsumed
 CHECK_DEADLOCK FALSE
